@@ -168,6 +168,14 @@ Definition m_Server_indicate_single_bearer : list string := [
   "            self.pending_confirmations.pop(bearer, None)"
 ].
 
+(* Server.on_disconnection *)
+Definition m_Server_on_disconnection : list string := [
+  "def on_disconnection(self, bearer):";
+  "    self.subscribers.pop(bearer, None)";
+  "    self.indication_semaphores.pop(bearer, None)";
+  "    self.pending_confirmations.pop(bearer, None)"
+].
+
 (* Server.on_invalid_gatt_pdu *)
 Definition m_Server_on_invalid_gatt_pdu : list string := [
   "def on_invalid_gatt_pdu(self, bearer, pdu):";
@@ -332,7 +340,7 @@ Definition m_Server_on_att_read_blob_request : list string := [
   "        else:";
   "            if request.value_offset > len(value):";
   "                response = att.ATT_Error_Response(request_opcode_in_error=request.op_code, attribute_handle_in_error=request.attribute_handle, error_code=att.ATT_INVALID_OFFSET_ERROR)";
-  "            elif len(value) <= bearer.att_mtu - 1:";
+  "            elif request.value_offset == 0 and len(value) <= bearer.att_mtu - 1:";
   "                response = att.ATT_Error_Response(request_opcode_in_error=request.op_code, attribute_handle_in_error=request.attribute_handle, error_code=att.ATT_ATTRIBUTE_NOT_LONG_ERROR)";
   "            else:";
   "                part_size = min(bearer.att_mtu - 1, len(value) - request.value_offset)";
@@ -759,6 +767,7 @@ Definition k_Server_write_cccd : string := "Server.write_cccd".
 Definition k_Server_send_response : string := "Server.send_response".
 Definition k_Server_notify_single_subscriber : string := "Server._notify_single_subscriber".
 Definition k_Server_indicate_single_bearer : string := "Server._indicate_single_bearer".
+Definition k_Server_on_disconnection : string := "Server.on_disconnection".
 Definition k_Server_on_invalid_gatt_pdu : string := "Server.on_invalid_gatt_pdu".
 Definition k_Server_on_gatt_pdu : string := "Server.on_gatt_pdu".
 Definition k_Server_on_att_request : string := "Server.on_att_request".
@@ -799,6 +808,7 @@ Definition m_skeleton : list (string * list string) := [
   ("Server.send_response", m_Server_send_response);
   ("Server._notify_single_subscriber", m_Server_notify_single_subscriber);
   ("Server._indicate_single_bearer", m_Server_indicate_single_bearer);
+  ("Server.on_disconnection", m_Server_on_disconnection);
   ("Server.on_invalid_gatt_pdu", m_Server_on_invalid_gatt_pdu);
   ("Server.on_gatt_pdu", m_Server_on_gatt_pdu);
   ("Server.on_att_request", m_Server_on_att_request);
